@@ -5,7 +5,7 @@
    Properties_C13.v is discharged for qutil_qsort, qutil_aligned_qsort and qutil_mergesort (qt_qsort keeps libc qsort). *)
 From Coq Require Import List NArith ZArith Permutation.
 From QV Require Import Util.Sort Util.SortProofs Util.SortCorrect Util.MergeCorrect Util.SortFinal
-                       Util.SeqSort Util.SeqSortProofs Util.SeqSortOuter Util.SeqSortTop.
+                       Util.SeqSort Util.SeqSortProofs Util.SeqSortOuter Util.SeqSortArr Util.SeqSortTop.
 Import ListNotations.
 
 (* seqsort_permutation -- no hypothesis at all: every comparison function (also a non-transitive one), every array, every
@@ -71,6 +71,16 @@ Theorem seqsort_partition_partitions : forall (V : Type) (leb : V -> V -> bool) 
   LEp V leb dflt a' b piv B Lf /\ GEp V leb dflt a' b piv Lf E.
 Proof. exact SeqSortProofs.ploop_order. Qed.
 Print Assumptions seqsort_partition_partitions.
+
+(* the explicit stack as the code has it -- two variable-length arrays beg[] / end[] and the index i, one update per
+   assignment of the C text (Util/SeqSortArr.v), the uninitialised contents of the arrays arbitrary -- computes exactly what
+   the model with the list of live entries computes: array, largest index and loop-head visits (entries above i are never
+   read before they are written) *)
+Theorem seqsort_array_stack_refines : forall (V : Type) (leb : V -> V -> bool) (dflt : V) (beg0 en0 : nat -> N) (a : arr V) b elements,
+  outer_arr V leb dflt (seq_fuel elements) (stack_cap elements) a b (supd beg0 O 0%N) (supd en0 O elements) 1 0%N 0%N =
+  seqsort_run V leb dflt a b elements.
+Proof. exact SeqSortArr.seqsort_array_stack_refines. Qed.
+Print Assumptions seqsort_array_stack_refines.
 
 (* the model satisfies the hypothesis BaseSortOK of Properties_C13.v *)
 Theorem seqsort_is_a_base_sort : forall (V : Type) (leb : V -> V -> bool) (dflt : V) (bound : N),
